@@ -19,8 +19,10 @@ import (
 	"runtime"
 	"strings"
 	"sync"
+	"sync/atomic"
 	"time"
 
+	"github.com/openconfig/gnmi/client"
 	cpb "github.com/openconfig/gnmi/proto/collector"
 	pb "github.com/openconfig/gnmi/proto/gnmi"
 	"google.golang.org/grpc"
@@ -121,7 +123,8 @@ type hub struct {
 	progress time.Time // last time a script moved
 	timedOut int       // bounded waits that ended by their bound
 	abort    string    // infrastructure trouble that leaves the case without a verdict
-	stop     bool      // the case is over: nobody waits any more
+	stop     bool      // the observers that lived while the scripts played are done: nobody waits any more
+	over     bool      // the case is over: what happens to the streams now is the harness's doing
 }
 
 func newHub() *hub {
@@ -174,9 +177,76 @@ type play struct {
 	done    bool   // script and sentinel sent completely
 	active  bool   // a stream from the collector is being served
 	flushed time.Time
+	// a target configured with a receive timeout sends heartbeats; rt is the timeout
+	rt         time.Duration
+	hbSent     int64 // value of the last heartbeat whose Send returned
+	unscripted int   // streams that ended without the script asking for it (before the case was over)
+	hbNext     atomic.Int64
 	// only touched by the handler holding serial
 	m  *model
 	ts int64
+}
+
+// guarded is one stream of a scripted target: the script and the heartbeats share it.
+type guarded struct {
+	mu     sync.Mutex
+	stream pb.GNMI_SubscribeServer
+	quiet  bool // a "silence" break: nothing is sent any more
+}
+
+func (g *guarded) send(rs []*pb.SubscribeResponse) error {
+	for _, r := range rs {
+		g.mu.Lock()
+		err := g.stream.Send(r)
+		g.mu.Unlock()
+		if err != nil {
+			return err
+		}
+	}
+	return nil
+}
+
+// heartbeats keeps the collector's receive timer from expiring while the script has nothing to say: a leaf
+// outside every view, value = a counter, sent every tenth of the timeout. It returns what stops them (and
+// waits for the sender: nothing may be sent once the handler has returned).
+func (p *play) heartbeats(h *hub, g *guarded) (stop func()) {
+	quit, done := make(chan struct{}), make(chan struct{})
+	period := p.rt / 10
+	if period < 10*time.Millisecond {
+		period = 10 * time.Millisecond
+	}
+	go func() {
+		defer close(done)
+		tk := time.NewTicker(period)
+		defer tk.Stop()
+		for {
+			select {
+			case <-quit:
+				return
+			case <-g.stream.Context().Done():
+				return
+			case <-tk.C:
+			}
+			g.mu.Lock()
+			if g.quiet {
+				g.mu.Unlock()
+				continue
+			}
+			n := p.hbNext.Add(1)
+			err := g.stream.Send(resp(&pb.Notification{Timestamp: time.Now().UnixNano(), Prefix: &pb.Path{},
+				Update: []*pb.Update{{Path: &pb.Path{Elem: []*pb.PathElem{{Name: heartbeatName}}}, Val: &pb.TypedValue{Value: &pb.TypedValue_IntVal{IntVal: n}}}}}))
+			g.mu.Unlock()
+			if err != nil {
+				return
+			}
+			h.change(func() {
+				if n > p.hbSent {
+					p.hbSent = n
+				}
+			})
+		}
+	}()
+	return func() { close(quit); <-done }
 }
 
 const (
@@ -223,7 +293,7 @@ type scriptedServer struct {
 }
 
 func (s *scriptedServer) addScript(tg Target, id string) {
-	p := &play{name: tg.Name, ops: tg.Ops, id: id, m: newModel(), ts: time.Now().UnixNano()}
+	p := &play{name: tg.Name, ops: tg.Ops, id: id, m: newModel(), ts: time.Now().UnixNano(), rt: time.Duration(tg.RecvTimeoutMs) * time.Millisecond}
 	s.h.change(func() { s.h.plays[tg.Name] = p })
 }
 
@@ -249,19 +319,30 @@ func (s *scriptedServer) Subscribe(stream pb.GNMI_SubscribeServer) error {
 		<-stream.Context().Done()
 		return nil
 	}
-	p.serial.Lock()
-	defer p.serial.Unlock()
+	g := &guarded{stream: stream}
 	var again bool
 	h.change(func() { p.conns++; again = p.conns > 1; p.active = true; h.progress = time.Now() })
 	defer h.change(func() { p.active = false })
-	send := func(rs []*pb.SubscribeResponse) error {
-		for _, r := range rs {
-			if err := stream.Send(r); err != nil {
-				return err
-			}
+	// a stream that ends without the script asking for it (the collector's receive timeout on a loaded machine,
+	// say) is no violation and decides nothing, but a case in which it happened cannot end with a verdict against
+	// the code: the collector drops the target's state at that instant and gets it again, observers see both
+	scripted := false
+	defer func() {
+		if !scripted {
+			h.change(func() {
+				if !h.over {
+					p.unscripted++
+				}
+			})
 		}
-		return nil
+	}()
+	if p.rt > 0 {
+		// before the script's turn: a stream that waits for the previous handler must not look dead
+		defer p.heartbeats(h, g)()
 	}
+	p.serial.Lock()
+	defer p.serial.Unlock()
+	send := g.send
 	if again {
 		// a device that is subscribed to again reports its current state, then marks it complete
 		if err := send(append(p.m.report(&p.ts), syncResp())); err != nil {
@@ -288,10 +369,11 @@ func (s *scriptedServer) Subscribe(stream pb.GNMI_SubscribeServer) error {
 			time.Sleep(time.Duration(o.N) * time.Millisecond)
 		case "break":
 			p.m.apply(o, nil)
-			switch o.Via {
-			case "rpc":
-				// the collector is asked to drop and re-establish this target's stream; whether and
-				// when it does is its business: nothing is lost, so the final state is the same
+			scripted = true
+			switch {
+			case o.Via == "rpc":
+				// the collector is asked to drop and re-establish this target's stream; the handler returns when
+				// the stream HAS ended (or the case is given up): what the target reports on the next one counts
 				rc := make(chan error, 1)
 				go func() { rc <- reconnectRPC(s.colAddr(), name) }()
 				select {
@@ -311,10 +393,33 @@ func (s *scriptedServer) Subscribe(stream pb.GNMI_SubscribeServer) error {
 					}
 				}
 				return status.Error(codes.Canceled, "stream cancelled")
-			case "conn":
+			case o.Via == "silence" && p.rt > 0:
+				// the device goes quiet; the collector's receive timeout ends the stream
+				g.mu.Lock()
+				g.quiet = true
+				g.mu.Unlock()
+				select {
+				case <-stream.Context().Done():
+				case <-time.After(p.rt + 20*time.Second):
+					h.change(func() {
+						h.abort = fmt.Sprintf("%s sent nothing for %v (receive_timeout %v) and its stream is still open", name, p.rt+20*time.Second, p.rt)
+					})
+				}
+				return status.Error(codes.Canceled, "stream cancelled")
+			case o.Via == "conn":
 				s.lis.closeAll()
 				return status.Error(codes.Unavailable, "scripted transport failure")
 			default:
+				switch o.Code {
+				case "eof":
+					return nil
+				case "canceled":
+					return status.Error(codes.Canceled, "scripted stream failure")
+				case "internal":
+					return status.Error(codes.Internal, "scripted stream failure")
+				case "deadline":
+					return status.Error(codes.DeadlineExceeded, "scripted stream failure")
+				}
 				return status.Error(codes.Unavailable, "scripted stream failure")
 			}
 		default:
@@ -465,3 +570,85 @@ func (b *bytesBuffer) Write(p []byte) (int, error) {
 	return len(p), nil
 }
 func (b *bytesBuffer) String() string { b.mu.Lock(); defer b.mu.Unlock(); return string(b.b) }
+
+// ---- targets with a receive timeout: was the stream stable around an observation? ---------------
+
+// unscriptedEnds counts the streams of targets WITH a receive timeout that ended although the script had not asked for it.
+func (h *hub) unscriptedEnds() int {
+	h.mu.Lock()
+	defer h.mu.Unlock()
+	n := 0
+	for _, p := range h.plays {
+		if p.rt > 0 {
+			n += p.unscripted
+		}
+	}
+	return n
+}
+
+// confirmStreams is called when a case is about to end with a violation. For every target with a receive
+// timeout it demands positive evidence that the collector did not give the target's stream up at an instant
+// the script had not chosen (a stalled machine): no stream ended unscripted so far, and a heartbeat that the
+// target sends on its current stream from now on arrives in the collector's cache while that stream is still
+// the current one. The collector resets a target only when its stream ends and every new stream is counted
+// before anything is sent on it, so the stream that carried the heartbeat was the collector's source for the
+// whole time between the end of the script and the observation. nil: confirmed (or nothing to confirm).
+func (h *hub) confirmStreams(addr string) *inconclusive {
+	type rtPlay struct {
+		p      *play
+		c0     int
+		n0     int64
+		broken bool
+	}
+	var rts []rtPlay
+	h.mu.Lock()
+	for _, p := range h.plays {
+		if p.rt > 0 {
+			// every break the script made is followed by exactly one new Subscribe call
+			breaks := 0
+			for _, o := range p.ops[:p.pos] {
+				if o.Kind == "break" {
+					breaks++
+				}
+			}
+			rts = append(rts, rtPlay{p: p, c0: p.conns, n0: p.hbSent, broken: p.unscripted > 0 || p.conns != 1+breaks})
+		}
+	}
+	h.mu.Unlock()
+	for _, r := range rts {
+		p := r.p
+		no := func(why string) *inconclusive {
+			return &inconclusive{msg: fmt.Sprintf("a mismatch was observed, but target %s has a receive timeout (%v) and %s: the collector may have dropped and re-read its state on its own", p.name, p.rt, why)}
+		}
+		if r.broken {
+			return no("a stream of it ended without the script asking for it (or the collector has not subscribed again yet)")
+		}
+		need := r.n0 + 2 // the Send of this one started after n0 was read
+		ok := h.wait(func() bool { return p.hbSent >= need || p.conns != r.c0 || p.unscripted > 0 }, 10*time.Second)
+		h.mu.Lock()
+		moved := p.conns != r.c0 || p.unscripted > 0
+		h.mu.Unlock()
+		if !ok || moved {
+			return no("its stream did not stay up afterwards")
+		}
+		arrived := false
+		for deadline := time.Now().Add(10 * time.Second); !arrived && time.Now().Before(deadline); time.Sleep(50 * time.Millisecond) {
+			leaves, err := subscribeView(baseQuery(addr, p.name, []QPath{{Path: []string{"openconfig", heartbeatName}, Index: []string{"openconfig", heartbeatName}}}, client.Once), nil, 5*time.Second)
+			if err != nil {
+				continue
+			}
+			for _, l := range leaves {
+				if v, isInt := l.Val.(int64); isInt && len(l.Path) == 3 && l.Path[2] == heartbeatName && v >= need {
+					arrived = true
+				}
+			}
+		}
+		h.mu.Lock()
+		moved = p.conns != r.c0 || p.unscripted > 0
+		h.mu.Unlock()
+		if !arrived || moved {
+			return no("a heartbeat sent afterwards did not arrive through the same stream")
+		}
+	}
+	return nil
+}
